@@ -5,6 +5,7 @@ import (
 	"errors"
 	"fmt"
 	"runtime"
+	"runtime/debug"
 	"sort"
 	"strings"
 	"sync"
@@ -125,6 +126,7 @@ type ORef struct {
 type Sample struct {
 	Crashed  bool
 	CrashMsg string
+	Stack    string
 	Class    string
 	Events   []Event // as compared with the model (canonically sorted for parallel graphs)
 	Raw      []Event // in order of occurrence
@@ -459,6 +461,7 @@ func (e *Exec) Do(op Op) (out Sample) {
 			if r := recover(); r != nil {
 				out.Crashed = true
 				out.CrashMsg = fmt.Sprintf("panic escaped %s: %v", op.K, r)
+				out.Stack = string(debug.Stack())
 			}
 		}()
 		switch op.K {
